@@ -2,6 +2,9 @@ package props
 
 import (
 	"fmt"
+	"go/ast"
+	"go/parser"
+	"go/token"
 	"os"
 	"path/filepath"
 	"regexp"
@@ -36,6 +39,9 @@ type tvPkg struct {
 	ParseErr   string
 	Cases      []tvCase
 	LoadFailed bool
+	Crashed    bool   // goose died (exit status >= 2, signal, or a Go panic trace)
+	Stderr     string // goose's stderr for this package (per-package mode only)
+	ExitCode   int
 }
 
 type gooseErr struct {
@@ -89,6 +95,7 @@ type tvOptions struct {
 	Explore      bool // use the schedule explorer (C03) instead of the sequential evaluator
 	MaxSchedules int
 	GoRuns       int // native runs (C03: outcome set)
+	PerPackage   bool // one goose invocation per package (a crash then costs one package only)
 }
 
 // tvBatch runs one batch end to end. dir is a fresh directory under the scratch dir.
@@ -108,20 +115,40 @@ func tvBatch(r *core.Run, dir string, gooseBin string, pkgs []*gorun.Pkg, opt tv
 		r.Inconclusive("go-run-" + strings.SplitN(runErr, ":", 2)[0])
 	}
 	flags := append([]string{"-ignore-errors"}, opt.GooseFlags...)
-	gr := b.RunGoose(gooseBin, filepath.Join(dir, "out"), flags)
-	errs, _ := parseGooseErrors(gr.Stderr)
+	outDir := filepath.Join(dir, "out")
+	type perPkg struct {
+		stderr string
+		code   int
+		signal bool
+	}
+	per := make([]perPkg, len(pkgs))
+	if opt.PerPackage {
+		core.Parallel(len(pkgs), 8, func(i int) {
+			g := b.RunGoose(gooseBin, outDir, flags, "./cases/"+pkgs[i].Name)
+			per[i] = perPkg{g.Stderr, g.Code, g.Signaled}
+		})
+	} else {
+		g := b.RunGoose(gooseBin, outDir, flags)
+		for i := range per {
+			per[i] = perPkg{g.Stderr, g.Code, g.Signaled}
+		}
+	}
 	var out []*tvPkg
-	for _, p := range pkgs {
-		tp := &tvPkg{Name: p.Name, Source: p.Files}
+	for pi, p := range pkgs {
+		tp := &tvPkg{Name: p.Name, Source: p.Files, Stderr: per[pi].stderr, ExitCode: per[pi].code}
+		errs, _ := parseGooseErrors(per[pi].stderr)
 		for _, e := range errs {
 			if strings.Contains(e.Src, "/cases/"+p.Name+"/") {
 				tp.GooseErrs = append(tp.GooseErrs, e)
 			}
 		}
-		if strings.Contains(gr.Stderr, "could not load package "+gorun.ModPath+"/cases/"+p.Name) {
+		if per[pi].code >= 2 || per[pi].signal || strings.Contains(per[pi].stderr, "panic:") || strings.Contains(per[pi].stderr, "goroutine 1 [") {
+			tp.Crashed = true
+		}
+		if strings.Contains(per[pi].stderr, "could not load package "+gorun.ModPath+"/cases/"+p.Name) {
 			tp.LoadFailed = true
 		}
-		vb, err := os.ReadFile(b.VPath(gr.OutDir, p.Name))
+		vb, err := os.ReadFile(b.VPath(outDir, p.Name))
 		if err == nil {
 			tp.VFile = string(vb)
 		}
@@ -133,6 +160,12 @@ func tvBatch(r *core.Run, dir string, gooseBin string, pkgs []*gorun.Pkg, opt tv
 				tp.ParseErr = perr.Error()
 			} else {
 				prog = gl.NewProgram(f)
+				prog.GoNames = map[string]bool{}
+				for _, src := range p.Files {
+					for _, n := range goTopLevelNames(src) {
+						prog.GoNames[n] = true
+					}
+				}
 			}
 		}
 		for _, cn := range b.Cases[p.Name] {
@@ -185,6 +218,36 @@ func evalCase(prog *gl.Program, name string, gores gorun.CaseResult, opt tvOptio
 	}
 	// every policy gave a definite outcome different from Go's
 	return outs[0].String(), "mismatch"
+}
+
+// goTopLevelNames lists the package-level identifiers a Go source file declares.
+func goTopLevelNames(src string) []string {
+	fset := token.NewFileSet()
+	f, err := parser.ParseFile(fset, "x.go", src, 0)
+	if err != nil {
+		return nil
+	}
+	var out []string
+	for _, d := range f.Decls {
+		switch d := d.(type) {
+		case *ast.FuncDecl:
+			if d.Recv == nil {
+				out = append(out, d.Name.Name)
+			}
+		case *ast.GenDecl:
+			for _, sp := range d.Specs {
+				switch sp := sp.(type) {
+				case *ast.TypeSpec:
+					out = append(out, sp.Name.Name)
+				case *ast.ValueSpec:
+					for _, n := range sp.Names {
+						out = append(out, n.Name)
+					}
+				}
+			}
+		}
+	}
+	return out
 }
 
 func firstLines(s string, n int) string {
